@@ -196,9 +196,13 @@ func handleCollHist(raw json.RawMessage) interface{} {
 	arr := value.NewArray([]r.Element{})
 	hm := value.NewEmptyHashMap()
 	var log []map[string]interface{}
+	// the last NEW collection handed out (逆序 / 合并 / 所有索引 / 所有值): the recorder keeps the Go object and logs
+	// what it contains NOW after every later step - the spec says it is a value of its own (ZnColl!kept)
+	var kept *value.Array
 	for step := 0; step < c.Len; step++ {
 		e := map[string]interface{}{"i": 0, "j": 0, "v": 0, "key": "", "other": []int{}}
 		var rep map[string]interface{}
+		var keepEl r.Element
 		if rnd.Intn(2) == 0 {
 			n := arr.Length()
 			i := rnd.Intn(n+3) - 0
@@ -235,6 +239,7 @@ func handleCollHist(raw json.RawMessage) interface{} {
 					e["o"] = "lrev"
 					el, err := arr.GetProperty("逆序")
 					rep = replyOf(el, err)
+					keepEl = el
 				case 6:
 					e["o"], e["v"] = "lprepend", v
 					el, err := arr.ExecMethod("前增", []r.Element{N(v)})
@@ -264,6 +269,7 @@ func handleCollHist(raw json.RawMessage) interface{} {
 					}
 					el, err := arr.ExecMethod("合并", []r.Element{value.NewArray(els)})
 					rep = replyOf(el, err)
+					keepEl = el
 				case 12:
 					e["o"], e["v"] = "lcontains", v
 					el, err := arr.ExecMethod("包含", []r.Element{N(v)})
@@ -309,13 +315,25 @@ func handleCollHist(raw json.RawMessage) interface{} {
 				e["o"] = "dkeys"
 				el, err := hm.GetProperty("所有索引")
 				rep = replyOf(el, err)
+				keepEl = el
 			case 7:
 				e["o"] = "dvals"
 				el, err := hm.GetProperty("所有值")
 				rep = replyOf(el, err)
+				keepEl = el
 			}
 		}
 		e["r"] = rep
+		if o, _ := e["o"].(string); (o == "lrev" || o == "lmerge" || o == "dkeys" || o == "dvals") && keepEl != nil {
+			if a, ok := keepEl.(*value.Array); ok {
+				kept = a
+			}
+		}
+		if kept != nil {
+			e["kept"] = arrInts(kept)
+		} else {
+			e["kept"] = []interface{}{}
+		}
 		// full projected state
 		e["l"] = arrInts(arr)
 		ks := []interface{}{}
